@@ -109,6 +109,7 @@ def run(repo, rep, tier):
     r5 = rep.rule('C14.R5', 'validation is called first (client and server)')
     r6 = rep.rule('C14.R6', 'pull kinds map 1:1')
 
+    close_always_releases(repo, rep)
     mp = repo.cls(MAIN, 'MainProvider')
     # ---------------- R1 who may write ----------------------------------
     allowed = {'_open_response': {'insert'}, '_pull_response': {'delete'},
@@ -673,3 +674,77 @@ def run(repo, rep, tier):
                         reg.lineno, '%s registers pull type %r but DSP0200 '
                         'pairs it with %s: the matching pull is refused'
                         % (n, lit, want))
+
+
+# calls that may refuse a CloseEnumeration before the context is removed
+CLOSE_MAY_REFUSE = {
+    '_validate_pull_operations_enabled':
+        'server-wide switch; with pull operations disabled no context can '
+        'be opened either',
+}
+
+
+def close_always_releases(repo, rep):
+    """C14.R10: an open enumeration context can always be closed.  On the
+    path of CloseEnumeration (server-side adapter, then provider) nothing
+    may refuse the request before the context is removed from the table,
+    except that the context is unknown.  A check that depends on other
+    state - e.g. validating the namespace the client sends along, which may
+    have been removed meanwhile - leaves a context that neither Pull nor
+    Close can remove any more."""
+    from ..cfg import stmt_facts
+    r10 = rep.rule('C14.R10', 'CloseEnumeration removes a known context '
+                   'unconditionally')
+    MOCKF = 'pywbem_mock/_wbemconnection_mock.py'
+    ad = repo.cls(MOCKF, 'FakedWBEMConnection').methods.get(
+        '_imeth_CloseEnumeration')
+    pv = repo.cls(MAIN, 'MainProvider').methods.get('CloseEnumeration')
+    if ad is None or pv is None:
+        raise AnalysisError('CloseEnumeration adapter / provider vanished')
+    r10.functions.update([ad.fq, pv.fq])
+    # adapter: only hands the context to the provider
+    r10.sites += 1
+    extra = []
+    for c in walk_no_nested(ad.node):
+        if isinstance(c, ast.Call):
+            d = dotted(c.func) or ''
+            if d.endswith('.CloseEnumeration') or d in ('params.get',):
+                continue
+            extra.append(c)
+    r10.ob(not extra, ad.qualname, {'other_calls': [norm(c, 50)
+                                                    for c in extra]})
+    for c in extra[:1]:
+        rep.finding(r10, ad.qualname, norm(c, 60), 'refuses-before-close',
+                    MOCKF, c.lineno,
+                    '%s runs before the provider removes the context: when '
+                    'it raises (e.g. CIM_ERR_INVALID_NAMESPACE after the '
+                    'namespace of the session was removed) the context '
+                    'stays in enumeration_contexts and can never be closed'
+                    % norm(c, 50))
+    # provider: before the delete only the unknown-context refusal
+    facts = stmt_facts(pv.node)
+    dels = [st for st in facts if isinstance(st, ast.Delete) and
+            'enumeration_contexts' in norm(st)]
+    if len(dels) != 1:
+        raise AnalysisError('CloseEnumeration: removal of the context not '
+                            'found')
+    r10.sites += 1
+    bad = []
+    for st, (fs, _t) in facts.items():
+        if st.lineno >= dels[0].lineno and not isinstance(st, ast.Raise):
+            continue
+        if isinstance(st, ast.Raise):
+            known = any(('enumeration_contexts' in norm(t)) for t, p in fs)
+            if not known:
+                bad.append(st)
+        elif isinstance(st, ast.Expr) and isinstance(st.value, ast.Call):
+            d = (dotted(st.value.func) or '').split('.')[-1]
+            if d not in CLOSE_MAY_REFUSE:
+                bad.append(st)
+    r10.ob(not bad, pv.qualname, {'allowed': sorted(CLOSE_MAY_REFUSE)})
+    for st in bad[:1]:
+        rep.finding(r10, pv.qualname, norm(st, 60), 'refuses-before-close',
+                    MAIN, st.lineno,
+                    '%s can refuse CloseEnumeration for a context that is '
+                    'in the table: the context is never released'
+                    % norm(st, 50))
